@@ -36,6 +36,7 @@ def shards(tier, seed):
 
 
 PT_ENCS = ("uncompressed", "compressed", "hybrid")
+_BL = {"i": 0}
 
 
 def lzclass(d, Q, Ln, Lp):
@@ -100,6 +101,9 @@ def check_key(ctx, curve, dom, d, named, lzhint=None):
         raw = sk.to_string()
         ctx.check(raw == d_bytes, "raw_private_encoding_wrong", "%s d=%d: to_string() = %s" % (cname, d, bytes(raw).hex()), dict(curve=cname, d=d))
         same_key(ctx, sk, ecdsa.SigningKey.from_string(raw, curve, hashlib.sha256), "sk raw", cname, d)
+        _BL["i"] += 1
+        cn, obj = gen.pick_container(raw, _BL["i"], wide=False)
+        same_key(ctx, sk, ecdsa.SigningKey.from_string(obj, curve, hashlib.sha256), "sk raw from " + cn, cname, d)
     except Exception as ex:
         ctx.violation("serialisation_raises", "%s d=%d sk raw: %s: %s" % (cname, d, type(ex).__name__, ex), dict(curve=cname, d=d))
     for enc in ("raw",) + PT_ENCS:
@@ -112,6 +116,9 @@ def check_key(ctx, curve, dom, d, named, lzhint=None):
             want = sec1.encode_point(dom, Q, enc)
             ctx.check(bytes(b) == want, "public_point_encoding_wrong", "%s d=%d: vk.to_string(%s) = %s, reference %s" % (cname, d, enc, bytes(b).hex(), want.hex()), dict(curve=cname, d=d, enc=enc))
             same_key(ctx, vk, ecdsa.VerifyingKey.from_string(b, curve, hashlib.sha256), "vk " + enc, cname, d)
+            _BL["i"] += 1
+            cn, obj = gen.pick_container(b, _BL["i"], wide=False)
+            same_key(ctx, vk, ecdsa.VerifyingKey.from_string(obj, curve, hashlib.sha256), "vk %s from %s" % (enc, cn), cname, d)
         except Exception as ex:
             ctx.violation("serialisation_raises", "%s d=%d vk %s: %s: %s" % (cname, d, enc, type(ex).__name__, ex), dict(curve=cname, d=d))
     if not named:
@@ -128,6 +135,9 @@ def check_key(ctx, curve, dom, d, named, lzhint=None):
             ctx.check(a == R.OID_EC_PUBLIC_KEY and co == oid and sec1.decode_point(dom, pb, allow_raw=False)[0] == Q, "public_der_not_canonical",
                       "%s d=%d: strict parser recovers other values from to_der(%s)" % (cname, d, enc), dict(curve=cname, d=d))
             same_key(ctx, vk, ecdsa.VerifyingKey.from_der(got, hashlib.sha256), "vk der " + enc, cname, d)
+            _BL["i"] += 1
+            cn, obj = gen.pick_container(got, _BL["i"], wide=False)
+            same_key(ctx, vk, ecdsa.VerifyingKey.from_der(obj, hashlib.sha256), "vk der %s from %s" % (enc, cn), cname, d)
         except Exception as ex:
             ctx.violation("serialisation_raises", "%s d=%d vk der %s: %s: %s" % (cname, d, enc, type(ex).__name__, ex), dict(curve=cname, d=d))
         ctx.case("vk.pem", key="%s|%s|%s" % (cname, enc, lz))
@@ -167,6 +177,9 @@ def check_key(ctx, curve, dom, d, named, lzhint=None):
                 ctx.check(len(dd) == Ln and int.from_bytes(dd, "big") == d and o2 == oid and pb == pt, "private_der_not_canonical",
                           "%s d=%d: strict parser recovers other values from sk.to_der(%s,%s): d len %d" % (cname, d, enc, fmt, len(dd)), dict(curve=cname, d=d))
                 same_key(ctx, sk, ecdsa.SigningKey.from_der(got, hashlib.sha256), "sk der %s %s" % (fmt, enc), cname, d)
+                _BL["i"] += 1
+                cn, obj = gen.pick_container(got, _BL["i"], wide=False)
+                same_key(ctx, sk, ecdsa.SigningKey.from_der(obj, hashlib.sha256), "sk der %s %s from %s" % (fmt, enc, cn), cname, d)
             except Exception as ex:
                 ctx.violation("serialisation_raises", "%s d=%d sk der %s %s: %s: %s" % (cname, d, fmt, enc, type(ex).__name__, ex), dict(curve=cname, d=d))
             ctx.case("sk.pem." + fmt, key="%s|%s|%s" % (cname, enc, lz))
